@@ -176,16 +176,18 @@ class Series(PySeries):
 
 
 class Frame(FakeFrame):
-    def __init__(self, data=None, schema=None, orient=None):
+    def __init__(self, data=None, schema=None, orient=None, order=None):
         """dict of columns, or (like polars) a list of column lists / with orient='row' a list of row lists"""
         if data is None:
             data = {}
         if isinstance(data, FakeFrame):
+            order = order if order is not None else list(data.columns)
             data = data._d
         if isinstance(data, (list, tuple)):
             if data and isinstance(data[0], dict):
                 keys = list(data[0])
                 data = {k: [r.get(k) for r in data] for k in keys}
+                order = keys
             else:
                 seqs = [list(x) if isinstance(x, (list, tuple)) else [x] for x in data]
                 if orient == "row":
@@ -195,7 +197,11 @@ class Frame(FakeFrame):
                     cols = seqs
                 names = list(schema) if schema else ["column_%d" % j for j in range(len(cols))]
                 data = dict(zip(names, cols))
-        FakeFrame.__init__(self, data)
+                order = names
+        FakeFrame.__init__(self, data, order=order)
+
+    def _new(self, d, order=None):
+        return Frame(d, order=order if order is not None else [c for c in self.columns if c in d] + [c for c in d if c not in self.columns])
 
     def __getitem__(self, key):
         if isinstance(key, str):
@@ -203,55 +209,55 @@ class Frame(FakeFrame):
                 raise Unsupported("model frame has no column %r" % key)
             return Series(self._d[key], key)
         if isinstance(key, slice):
-            return Frame({c: v[key] for c, v in self._d.items()})
+            return self._new({c: self._d[c][key] for c in self.columns}, order=self.columns)
         raise Unsupported("Frame[%r]" % (key,))
 
-    def _wrap(self, d):
-        return Frame(d)
-
-    def clone(self): return Frame(self._d)
-    def slice(self, offset, length=None):
-        end = None if length is None else offset + length
-        return Frame({c: v[offset:end] for c, v in self._d.items()})
-
     def select(self, cols):
-        if isinstance(cols, str):
+        if isinstance(cols, (str, Expr)):
             cols = [cols]
-        out = {}
+        out, order = {}, []
         for c in cols:
             if isinstance(c, Expr):
                 out[c._name] = c.eval(self)
+                order.append(c._name)
             else:
                 out[c] = self._d[c]
-        return Frame(out)
+                order.append(c)
+        return self._new(out, order=order)
 
     def get_column(self, c): return Series(self._d[c], c)
 
     def with_columns(self, *exprs, **named):
-        d = dict(self._d)
+        d = {c: self._d[c] for c in self.columns}
+        order = list(self.columns)
         flat = []
         for e in exprs:
             if isinstance(e, (list, tuple)):
                 flat.extend(e)
             else:
                 flat.append(e)
+
+        def put(name, vals):
+            if name not in order:
+                order.append(name)
+            d[name] = vals
         for e in flat:
             if isinstance(e, Expr):
                 if e._name is None:
                     raise Unsupported("with_columns needs a named expression")
-                d[e._name] = e.eval(self)
+                put(e._name, e.eval(self))
             elif isinstance(e, PySeries):
-                d[e.name] = e.to_list()
+                put(e.name, e.to_list())
             else:
                 raise Unsupported("with_columns(%r)" % type(e).__name__)
         for k, e in named.items():
-            d[k] = _values(e, self, self.height)
-        return Frame(d)
+            put(k, _values(e, self, self.height))
+        return self._new(d, order=order)
 
     def filter(self, mask):
         vals = _values(mask, self, self.height)
         keep = [i for i, m in enumerate(vals) if m is not None and m]
-        return Frame({c: [v[i] for i in keep] for c, v in self._d.items()})
+        return self._new({c: [self._d[c][i] for i in keep] for c in self.columns}, order=self.columns)
 
     def unique(self):
         seen, keep = [], []
@@ -260,10 +266,10 @@ class Frame(FakeFrame):
             if r not in seen:
                 seen.append(r)
                 keep.append(i)
-        return Frame({c: [v[i] for i in keep] for c, v in self._d.items()})
+        return self._new({c: [self._d[c][i] for i in keep] for c in self.columns}, order=self.columns)
 
     def __eq__(self, other):
-        return isinstance(other, FakeFrame) and self._d == other._d
+        return isinstance(other, FakeFrame) and self.columns == other.columns and self._d == other._d
 
 
 class _When:
